@@ -134,6 +134,13 @@ def c07(res, ctx):
     for tp in terminal_positions(res, 2000)[:10]:
         leg[tp] = set()
         add(['position startpos', 'go depth 2', 'position fen ' + tp, 'go depth 2'], [start, tp], [None, None])
+    # full-move numbers up to the edge of the range of C07_bestmove_exists (full + turn < 2^25); beyond it: known finding
+    for fm in (1, 2 ** 23 - 1, 2 ** 23, 2 ** 24, 2 ** 25 - 1, 2 ** 25, 2 ** 31 - 1):
+        for body in ('kr6/1p6/8/8/B7/R7/5PPP/3r2K1 w - - 0 %d', '6k1/5ppp/8/8/8/8/8/R3K2R w KQ - 0 %d', 'r3k3/8/8/8/8/8/8/4K2R b Kq - 3 %d'):
+            f = body % fm
+            leg.update(legal_sets([f]))
+            for go in ('go depth 1', 'go depth 2'):
+                add(['position fen ' + f, go], [f], [None])
     # thrice-repeated root positions
     for rep in REPEAT:
         for go in ['go depth 1', 'go depth 2', 'go depth 3', 'go movetime 5']:
@@ -166,6 +173,9 @@ def c07(res, ctx):
                 first_iter_aborted = '@poll' in c and infos and ' depth 0 ' in infos[-1] + ' ' and not any(' pv ' in i for i in infos)
                 if allowed and w[1] == '0000' and first_iter_aborted:
                     continue      # the hook (polling period 1) interrupted iteration 1, which the real period of 100000 nodes cannot do (C07_first_iteration_not_interruptible)
+                if allowed and w[1] == '0000' and int(fen.split(' ')[5]) + (fen.split(' ')[1] == 'b') >= 2 ** 25:
+                    res.skipped['known finding fullmove_ge_2p25'] = res.skipped.get('known finding fullmove_ge_2p25', 0) + 1
+                    continue
                 if allowed:
                     if w[1] == '0000': bad = 'bestmove 0000 although legal moves exist'
                     elif w[1] not in allowed: bad = 'bestmove %s is not a legal move%s' % (w[1], ' of searchmoves' if sm else '')
